@@ -93,7 +93,7 @@ class Overlay:
                 wanted.add(dst)
                 with open(m["file"]) as fh:
                     _write_if_changed(dst, fh.read())
-                extra += '#[cfg(kani)]\n#[path = "%s"]\nmod %s;\n' % (dst, m["modname"])
+                extra += '#[cfg(kani)]\n#[path = "%s"]\npub(crate) mod %s;\n' % (dst, m["modname"])
             _write_if_changed(os.path.join(self.tree, "crates", crate, parent), body + extra)
         for c in CRATES:
             kd = os.path.join(self.tree, "crates", c, "kani_verif")
